@@ -32,8 +32,8 @@ def hex8 (n : Nat) : String :=
   String.ofList ((List.range 8).reverse.map fun i => hexDigit ((n >>> (4 * i)) % 16))
 
 /-- canonical rendering of an output: full hex when short, else length and CRC32 -/
-def outRepr (bs : Bytes) : String :=
-  if bs.length ≤ 256 then hexOfBytes bs else s!"#{bs.length}:{hex8 (crc32 bs)}"
+def outRepr (bs : Bytes) (full : Bool := false) : String :=
+  if full || bs.length ≤ 256 then hexOfBytes bs else s!"#{bs.length}:{hex8 (crc32 bs)}"
 
 /-- key=value fields of a case line -/
 abbrev Fields := List (String × String)
@@ -78,8 +78,8 @@ def verdictOf : Except Err α → String
   | .error .fuel => "hang"
   | .error _ => "err"
 
-def sinkRepr (s : Sink) : String :=
-  s!"out={outRepr s.out.toList} fl={s.flushes} lf={if s.lastFlush then 1 else 0}"
+def sinkRepr (s : Sink) (full : Bool := false) : String :=
+  s!"out={outRepr s.out.toList full} fl={s.flushes} lf={if s.lastFlush then 1 else 0}"
 
 /-- one-shot decoders -/
 def runOneShot (op : String) (f : Fields) : String :=
@@ -93,7 +93,7 @@ def runOneShot (op : String) (f : Fields) : String :=
   let used := match r with
     | .ok rd' => s!"{rd.rem.length - rd'.rem.length}"
     | .error _ => "-"
-  s!"{verdictOf r} used={used} {sinkRepr snk}"
+  s!"{verdictOf r} used={used} {sinkRepr snk (f.get "full" == "1")}"
 
 /-- raw LZMA decoder histories: `ops=d:<hex>;r;rs:none;rs:<n>` -/
 def runRawLzma (f : Fields) : String :=
@@ -161,10 +161,16 @@ def runStream (f : Fields) : String :=
     match op.splitOn ":" with
     | ["w", h] =>
       let data := (bytesOfHex h).getD []
-      match st.write data snk with
-      | (snk', .ok (st', n)) => (st', snk', acc ++ [s!"w{n}@{snk'.out.size}"], false)
-      | (snk', .error e) =>
-        (st.failed, snk', acc ++ [s!"w{verdictOf (Except.error e : Except Err Unit)}@{snk'.out.size}"], false)
+      match st.writeS data snk with
+      | (snk', st', .ok n) => (st', snk', acc ++ [s!"w{n}@{snk'.out.size}"], false)
+      | (snk', st', .error e) =>
+        (st', snk', acc ++ [s!"w{verdictOf (Except.error e : Except Err Unit)}@{snk'.out.size}"], false)
+    | ["wa", h] =>
+      let data := (bytesOfHex h).getD []
+      match Stream.feed (data.length + 1) st data 0 snk with
+      | (snk', st', .ok n) => (st', snk', acc ++ [s!"wa{n}@{snk'.out.size}"], false)
+      | (snk', st', .error e) =>
+        (st', snk', acc ++ [s!"wa{verdictOf (Except.error e : Except Err Unit)}@{snk'.out.size}"], false)
     | ["f"] =>
       match st.flush snk with
       | (snk', r) => (st, snk', acc ++ [s!"f{verdictOf r}"], false)
@@ -172,7 +178,34 @@ def runStream (f : Fields) : String :=
       match st.finish snk with
       | (snk', r) => (st, snk', acc ++ [s!"fin{verdictOf r}"], true)
     | _ => (st, snk, acc, done)
-  " ".intercalate outs ++ " " ++ sinkRepr snk
+  " ".intercalate outs ++ " " ++ sinkRepr snk (f.get "full" == "1")
+
+/-- model-only: per-symbol table (bytes consumed, bytes produced) of a one-shot
+`.lzma` decode, used as the progress oracle of C15 -/
+partial def traceLoop (orig : Nat) (s : DState) (w : Circ) (rc : RC) (rd : Rd) (snk : Sink)
+    (acc : Array String) : Array String :=
+  let stop : Bool := match s.unpackedSize with
+    | some n => decide (w.len ≥ n)
+    | none => rd.rem.isEmpty && rc.code == 0
+  if stop then acc.push "end"
+  else
+    match s.processNext w rc rd snk with
+    | (snk', .ok (st, s', w', rc', rd')) =>
+      let acc := acc.push s!"{orig - rd'.rem.length}:{w'.len}"
+      if st == .finished then acc.push "marker" else traceLoop orig s' w' rc' rd' snk' acc
+    | (_, .error _) => acc.push "err"
+
+def runTrace (f : Fields) : String :=
+  let data := f.bytes "in"
+  let rd := Rd.ofBytes data
+  match readHeader rd (parseOptions f) with
+  | .error _ => "hdrerr"
+  | .ok (params, rd) =>
+    match DState.new params.props params.unpackedSize, RC.new rd with
+    | .ok st, .ok (rc, rd) =>
+      let acc := traceLoop data.length st (Circ.fromStream params.dictSize USIZE_MAX) rc rd {} #[s!"{data.length - rd.rem.length}:0"]
+      ",".intercalate acc.toList
+    | _, _ => "initerr"
 
 /-- window operation sequences (C09/C10): `kind=circ|accum d= m= ops=…` -/
 def runWin (f : Fields) : String :=
@@ -247,7 +280,7 @@ def runEnc (f : Fields) : String :=
     else if kind == "lzma2" then do let _ ← lzma2Compress rd; pure ()
     else xzCompress rd
   let (snk, r) := m snk
-  s!"{verdictOf r} {sinkRepr snk} w={snk.writes}"
+  s!"{verdictOf r} {sinkRepr snk (f.get "full" == "1")} w={snk.writes}"
 
 /-- CRC validation cases -/
 def runCrc (f : Fields) : String :=
@@ -269,6 +302,7 @@ def runCase (line : String) : String :=
       else if op == "win" then runWin f
       else if op == "enc" then runEnc f
       else if op == "crc" then runCrc f
+      else if op == "trace" then runTrace f
       else "bad-op"
     s!"id={id} {res}"
 
